@@ -60,7 +60,10 @@ Inputs == {In("scalar", c) : c \in ScalarClasses} \cup {In(sh, c) : sh \in Conta
 (* wrapping a constant of type t).  num: "does not convert one to the other"; bool is a python int.  *)
 DeclTypes(vc) ==
     CASE vc \in {"str", "lstr", "enum"} -> {"str"}
-      [] vc \in {"int", "bool_int", "ms", "int_from_hex", "pow2"} -> {"int"}
+      [] vc \in {"int", "bool_int", "ms", "int_from_hex"} -> {"int"}
+      \* pow2 checks the value and hands the item back as given (the repository's own test_Config pins '128' -> '128'),
+      \* so only the numeric value is constrained, not the python type
+      [] vc = "pow2" -> {"int", "str", "float", "bool"}
       [] vc \in {"float", "secs", "gain"} -> {"float"}
       [] vc = "num" -> {"int", "float", "bool"}
       [] vc = "bool" -> {"bool"}
@@ -125,20 +128,35 @@ JudgeScalar(v, ec, ir) ==
                              ELSE Acc({"list"}, {"k4"}, FALSE)
       [] vc = "color" -> Acc({"tuple"}, {"c3"}, FALSE)
       [] vc = "gain" -> IF ir = "nan" THEN Reject ELSE Acc({"float"}, {}, FALSE)    \* clamped to 0..1: the range is checked on the result
-      [] vc = "pow2" -> IF ec \in Numeric THEN Acc({"int"}, {"p2", "numeq"}, FALSE) ELSE Reject
+      [] vc = "pow2" -> IF ec \in Numeric THEN Acc({"int", "str", "float", "bool"}, {"p2"}, FALSE) ELSE Reject
+
+(* "a, b" given where ONE element is expected is just a string with a comma in it *)
+JudgeCsv(v, ec) ==
+    LET vc == v.vc IN
+    IF v.tok /\ ec = "token_str" THEN Acc({"RuntimeToken"}, {"tok"}, FALSE)        \* "(a), (b)" starts with ( and ends with )
+    ELSE CASE vc = "str" -> Acc({"str"}, {"ident"}, FALSE)
+      [] vc = "lstr" -> Acc({"str"}, {"lower"}, FALSE)
+      [] vc = "enum" -> Acc({"str"}, {"member"}, FALSE)
+      [] vc = "machine" -> Acc({"device"}, {"dev"}, FALSE)
+      [] vc \in TemplateV -> Acc(DeclTypes(vc), {}, FALSE)
+      [] vc = "list" -> Acc({"list"}, {}, FALSE)
+      [] vc = "int_from_hex" -> Acc({"int"}, {"hex"}, FALSE)
+      [] vc = "kivycolor" -> IF ec = "token_str" THEN Acc({"str"}, {"lower"}, FALSE) ELSE Acc({"list"}, {"k4"}, FALSE)
+      [] vc = "color" -> Acc({"tuple"}, {"c3"}, FALSE)
+      [] vc = "gain" -> Acc({"float"}, {}, FALSE)
+      [] OTHER -> Reject
 
 JudgeElem(v, c, ir) ==
     IF c.sh = "scalar" THEN JudgeScalar(v, c.ec, ir)
     ELSE IF c.sh = "tuple3" THEN AnyV
+    ELSE IF c.sh = "csv" THEN JudgeCsv(v, c.ec)
     ELSE LET vc == v.vc IN          \* a container where one element is expected
          CASE vc \in {"str", "lstr", "template_str", "int_from_hex"} -> Acc(DeclTypes(vc), {}, FALSE)  \* str(x) exists
            [] vc = "list" -> Acc({"list"}, {}, FALSE)
            [] vc = "gain" -> Acc({"float"}, {}, FALSE)
            [] vc = "dict" -> IF c.sh \in DictShapes \cup {"empty_dict", "empty_list"} THEN Acc({"dict"}, {}, FALSE) ELSE Reject
-           [] vc = "subconfig" -> IF c.sh \in DictShapes \cup {"empty_dict"} THEN Acc({"dict"}, {"complete"}, FALSE) ELSE Reject
-           [] vc = "kivycolor" -> IF c.sh \in {"empty_list", "empty_dict"} THEN Acc({"NoneType"}, {"none"}, FALSE)
-                                  ELSE IF c.sh = "csv" THEN Acc({"list"}, {"k4"}, FALSE) ELSE Reject
-           [] vc = "color" -> IF c.sh = "csv" THEN Acc({"tuple"}, {"c3"}, FALSE) ELSE Reject
+           [] vc = "subconfig" -> IF c.sh \in DictShapes \cup {"empty_dict"} THEN Acc({"dict"}, {"complete", "known"}, FALSE) ELSE Reject
+           [] vc = "kivycolor" -> IF c.sh \in {"empty_list", "empty_dict"} THEN Acc({"NoneType"}, {"none"}, FALSE) ELSE Reject
            [] OTHER -> Reject
 
 ------------------------------------------------------------------------------
@@ -250,29 +268,36 @@ JudgeSection(c) ==
 VP(vc) == {[tok |-> t, rg |-> r] : t \in (IF vc \in TokenCapable THEN BOOLEAN ELSE {FALSE}),
                                    r \in (IF vc \in RangeCapable THEN BOOLEAN ELSE IF vc = "gain" THEN {TRUE} ELSE {FALSE})}
 KV(it) == IF it = "dict" THEN KeyVClasses ELSE IF it = "event_handler" THEN {"str"} ELSE {"na"}
-IR(rg) == IF rg THEN {"na", "below", "in", "above", "nan"} ELSE {"na"}
+\* relation of the input to the declared range (computed by the driver from the input value and the spec string only)
+IR(rg, sh, ec) == IF ~rg THEN {"na"}
+                  ELSE IF sh = "default" THEN {"na", "below", "in", "above", "nan"}
+                  ELSE IF ec \in NanClasses THEN {"nan"}
+                  ELSE IF ec \in Numeric \cup InfClasses THEN {"below", "in", "above"}
+                  ELSE {"na"}
 DC(sh) == IF sh = "default" THEN {"none", "required", "value"} ELSE {"na"}
 VOf(it) == IF it = "event_handler" THEN {"ms"} ELSE VClasses
-ItemCasesFor(it, vc, p) == UNION {{[kind |-> "item", it |-> it, vc |-> vc, tok |-> p.tok, rg |-> p.rg, kv |-> k, sh |-> i.sh,
-                                     ec |-> i.ec, ir |-> r, dcl |-> d] : k \in KV(it), r \in IR(p.rg), d \in DC(i.sh)} : i \in Inputs}
-ItemCases == UNION {UNION {UNION {ItemCasesFor(it, vc, p) : p \in VP(vc)} : vc \in VOf(it)} : it \in ItemTypes}
 IsItemCase(c) == /\ c.it \in ItemTypes /\ c.vc \in VOf(c.it) /\ [tok |-> c.tok, rg |-> c.rg] \in VP(c.vc) /\ c.kv \in KV(c.it)
-                 /\ In(c.sh, c.ec) \in Inputs /\ c.ir \in IR(c.rg) /\ c.dcl \in DC(c.sh)
+                 /\ In(c.sh, c.ec) \in Inputs /\ c.ir \in IR(c.rg, c.sh, c.ec) /\ c.dcl \in DC(c.sh)
 TimeCases == {[kind |-> "time", fn |-> f, suf |-> s, vm |-> x] : f \in {"ms", "secs"}, s \in Suffixes \cup {""}, x \in TimeVals}
 SectionCases == {[kind |-> "section", mode |-> m, allow |-> a] : m \in {"missing", "unknown", "provided"}, a \in BOOLEAN}
-Cases == ItemCases \cup TimeCases \cup SectionCases
 Judge(c) == CASE c.kind = "item" -> JudgeItem(c) [] c.kind = "time" -> JudgeTime(c) [] c.kind = "section" -> JudgeSection(c)
 
 NoCase == [kind |-> "none"]
 Pick(c) == /\ cur' = c /\ verdict' = Judge(c) /\ act' = [op |-> "judge", kind |-> c.kind]
 Init == cur = NoCase /\ verdict = [o |-> "none"] /\ act = [op |-> "init"]
-Next == cur.kind = "none" /\ \E c \in Cases : Pick(c)
+ItemCase(it, vc, p, k, i, r, d) == [kind |-> "item", it |-> it, vc |-> vc, tok |-> p.tok, rg |-> p.rg, kv |-> k, sh |-> i.sh,
+                                    ec |-> i.ec, ir |-> r, dcl |-> d]
+\* (the case set is never materialised: TLC's UNION of many sets is quadratic)
+Next == /\ cur.kind = "none"
+        /\ \/ \E it \in ItemTypes : \E vc \in VOf(it) : \E p \in VP(vc) : \E k \in KV(it) : \E i \in Inputs :
+                 \E r \in IR(p.rg, i.sh, i.ec) : \E d \in DC(i.sh) : Pick(ItemCase(it, vc, p, k, i, r, d))
+           \/ \E c \in TimeCases \cup SectionCases : Pick(c)
 Spec == Init /\ [][Next]_vars
 
 ------------------------------------------------------------------------------
 (* design checks *)
 AllTypeNames == UNION {DeclTypes(vc) : vc \in VClasses} \cup {"NoneType", "RuntimeToken", "set"}
-AllRels == {"none", "tok", "ident", "lower", "numtr", "numeq", "btrue", "bfalse", "member", "dev", "complete", "hex", "k4", "c3", "p2"}
+AllRels == {"none", "tok", "ident", "lower", "numtr", "numeq", "btrue", "bfalse", "member", "dev", "complete", "known", "hex", "k4", "c3", "p2"}
 \* Judge is defined for every case and yields a well-formed verdict
 Total == cur.kind # "none" =>
     \/ verdict.o \in {"reject", "any"}
@@ -282,7 +307,7 @@ Total == cur.kind # "none" =>
     \/ verdict.o = "accept" /\ cur.kind = "time" /\ verdict.must \in BOOLEAN /\ verdict.ms \in Int
     \/ verdict.o = "accept" /\ cur.kind = "section" /\ verdict.need \subseteq {"allp", "provp", "unkp"}
 \* never accepts outside the declared range / type
-Scalarish(c) == c.sh = "scalar" \/ c.sh \in ListShapes \cup {"csv"}
+Scalarish(c) == c.sh = "scalar" \/ (c.it # "single" /\ c.sh \in {"list2", "list_empty", "csv"})
 Consistent == (cur.kind # "none" /\ cur.kind = "item") =>
     /\ (cur.rg /\ cur.ir \in {"below", "above", "nan"} /\ (cur.vc \in RangeCapable \/ cur.ir = "nan") /\ cur.it \in {"single", "list", "set"} /\ Scalarish(cur)
             /\ ~(cur.sh = "scalar" /\ cur.ec \in NoneLike \cup {"empty_str", "tmpl_brace"}) /\ ~(cur.tok /\ cur.ec = "token_str")
@@ -295,7 +320,7 @@ Consistent == (cur.kind # "none" /\ cur.kind = "item") =>
     /\ (verdict.o = "accept" /\ cur.it \in {"list", "set"} =>
             verdict.ty = {cur.it} /\ verdict.ety \subseteq DeclTypes(cur.vc) \cup {"NoneType", "RuntimeToken"})
     /\ (verdict.o = "accept" /\ cur.it \in {"dict", "event_handler"} => verdict.ty = {"dict"})
-    /\ (cur.vc = "enum" /\ cur.ec = "enum_nonmember" /\ cur.sh \in {"scalar", "list2", "csv"} /\ cur.it \in {"single", "list", "set"}
+    /\ (cur.vc = "enum" /\ cur.ec = "enum_nonmember" /\ Scalarish(cur) /\ cur.sh # "list_empty" /\ cur.it \in {"single", "list", "set"}
         => verdict.o = "reject")
     /\ (cur.sh = "default" /\ cur.dcl = "required" => verdict.o = "reject")
 \* every accepted unit suffix evaluates to value * unit; time strings given to time validators carry the time relation
@@ -308,6 +333,7 @@ TimeSemantics ==
 UnitTable == /\ UnitMs["msec"] = UnitMs["ms"] /\ UnitMs["sec"] = UnitMs["s"] /\ UnitMs["s"] = 1000 * UnitMs["ms"]
              /\ UnitMs["m"] = 60 * UnitMs["s"] /\ UnitMs["h"] = 60 * UnitMs["m"] /\ UnitMs["d"] = 24 * UnitMs["h"]
              /\ DOMAIN UnitMs = Suffixes
+ASSUME UnitTableOK == UnitTable
 SectionRules == (cur.kind # "none" /\ cur.kind = "section") =>
     /\ (cur.mode = "unknown" /\ ~cur.allow => verdict.o = "reject")
     /\ (verdict.o = "accept" => "allp" \in verdict.need)
